@@ -3,6 +3,7 @@ import FeatModel.Model.Solver.Control
 import FeatModel.Model.Solver.Krylov
 import FeatModel.Model.Solver.BiCGStab
 import FeatModel.Model.Solver.Session
+import FeatModel.Model.Solver.RGCR
 import FeatModel.Model.Solver.RatVec
 /-! line-protocol driver for the C07 models (convergence control; PCG / Richardson / PCR / PMR / BiCGStab sessions) -/
 open FeatModel FeatModel.Proto FeatModel.Solver
@@ -102,21 +103,31 @@ def solveOp : P String := do
     | some (k, w) => ratSysF A mask k w
     | none => ratSys A mask pre
   let ns ← nat
-  let mut solves : List (Bool × RVec n × RVec n) := []
+  let mut steps : List (SessionStep (RVec n)) := []
+  let mut rsteps : List (Nat × Bool × RVec n × RVec n) := []
   for _ in List.range ns do
     let mode ← tok
     let x0 ← vecP n
     let b ← vecP n
-    let _re ← nat
-    solves := solves ++ [(decide (mode = "a"), x0, b)]
+    let re ← nat
+    rsteps := rsteps ++ [(re, decide (mode = "a"), x0, b)]
+    -- the harness re-initialises BEFORE the solve: 1 = done_numeric+init_numeric, 2 = done()+init()
+    if re = 1 then steps := steps ++ [SessionStep.reinitNumeric]
+    if re = 2 then steps := steps ++ [SessionStep.reinitFull]
+    steps := steps ++ [SessionStep.solve (decide (mode = "a")) x0 b]
   let k : Option Kind := match kind with
     | "pcg" => some .pcg | "rich" => some .rich | "pcr" => some .pcr | "pmr" => some .pmr
     | "pcgnr" => some .pcgnr | "bicgstab" => some .bicgstab | "cheb" => some .cheb | _ => none
+  if kind = "rgcr" then
+    -- RGCR recycles direction vectors from solve to solve: its own session function
+    match rgcrSession S c freshState [] rsteps with
+    | none => return "ABORT"
+    | some rs => return (" | ".intercalate (rs.map showResult))
   match k with
   | none => throw s!"unknown solver {kind}"
   | some k =>
     -- one persistent solver object; its control members start as the IterativeSolver constructor leaves them
-    match runSession k S c omega freshState solves with
+    match runSteps k S c omega freshState steps with
     | none => pure "ABORT"
     | some rs => pure (" | ".intercalate (rs.map showResult))
 
